@@ -115,6 +115,7 @@ let () =
          let ob = kcase (cfg64 (dbg = "1")) (z_of_int code) (List.map z_of_string rest) in
          Buffer.add_string out ("K " ^ id ^ " " ^ string_of_obs ob ^ "\n")
        | [] -> ()
+       | "X" :: _ -> ()    (* fault injection directive: the functional model runs the un-faulted history *)
        | _ -> failwith ("bad line: " ^ line)
      done
    with End_of_file -> ());
